@@ -17,6 +17,12 @@ structure Mac where
   buf : Bytes := []
 deriving Repr, Inhabited, DecidableEq
 
+/-- the nil `hash.Hash` (what `Init` returns for a key of the wrong length, the zero value of a field): a hash
+number no `hmac.New` produces.  Calling a method on it is a nil dereference in Go and NOT a fault here: the
+functions that hold such values test them before use (`ike.go`, `GenerateKeyForChildSA`). -/
+def Mac.nil : Mac := { h := 255 }
+def Mac.isNil (m : Mac) : Bool := m.h == 255
+
 def Mac.new (h : Nat) (key : Bytes) : Mac := { h := h, key := key, buf := [] }
 def Mac.write (m : Mac) (x : Bytes) : Mac := { m with buf := m.buf ++ x }
 def Mac.reset (m : Mac) : Mac := { m with buf := [] }
